@@ -61,6 +61,9 @@ Definition dobs_eqb (x y : dobs) : bool :=
 Definition observe (d : Z) : dobs :=
   mkDobs (dir_is_vertical d) (dir_progression d) (dir_has_vertical_orientation d) (dir_is_sideways d).
 
+(* IsSideways means "vertical with a sideways orientation" (its documentation): a sideways value is vertical *)
+Definition dobs_coherent (o : dobs) : bool := implb (o_sideways o) (o_vertical o).
+
 (* SetProgression p changes the progression and nothing else *)
 Definition set_progression_ok (before after : dobs) (p : bool) : bool :=
   Bool.eqb (o_progression after) p && Bool.eqb (o_vertical after) (o_vertical before)
